@@ -26,6 +26,8 @@ for name in sorted(os.listdir(root)):
         key = (r.get('first_keys') or [''])[0]
         key = re.sub(r'^key=', '', key).split(' detail=')[0]
         det.append('%s: `%s`' % (chk.split(':')[0], key) if r.get('violations') else '%s: NOT reported' % chk.split(':')[0])
+    if m.get('triage'):
+        det.append('*' + m['triage'] + '*')
     print('| %s %s | %s | %s |' % (name, title.replace('|', '/'), needs.replace('|', '/')[:90], '; '.join(det)))
 
 
